@@ -1,8 +1,10 @@
-(* C20 round 7: skipped lines, histories of calls, directories with links, matrices of numbers in any layout *)
+(* C20 round 7: skipped lines, histories of calls, directories with links, matrices of numbers in any layout,
+   the parser as a function of words, repeated letters, ValueError characterisation, row kinds, cell grammar *)
 From Coq Require Import List ZArith NArith Bool Lia.
 From Coq.Strings Require Import Byte.
 Import ListNotations.
 From SV Require Import Text G_submat_index C20_Model C20_Finite C20_Render C20_Num C20_Lemmas.
+
 
 (* ================= comment / blank lines are irrelevant wherever they stand ================= *)
 Lemma skipped_lines_irrelevant ls1 ls2 st mat :
@@ -320,3 +322,564 @@ Proof.
   - rewrite map_map. cbn [fst]. exact Hr.
   - intros k _ [].
 Qed.
+
+(* ================= EVERY file that parses, repeated letters included: the last one wins ================= *)
+Fixpoint get_last {V} (k : str) (l : list (str * V)) : option V :=
+  match l with
+  | [] => None
+  | (k', v) :: r => match get_last k r with
+                    | Some x => Some x
+                    | None => if str_eqb k' k then Some v else None
+                    end
+  end.
+Fixpoint find_last {A} (P : A -> bool) (l : list A) : option A :=
+  match l with
+  | [] => None
+  | x :: r => match find_last P r with
+              | Some y => Some y
+              | None => if P x then Some x else None
+              end
+  end.
+(* what submat(file)[r][c] is, read off the text: the LAST data line whose first word is r; in it the LAST of the first
+   min(#letters, #values) columns whose header letter is c; the word there, read by float() if any value word of that line
+   contains a "." and by int() otherwise *)
+Definition cell_spec (raw : str) (r c : str) : option num :=
+  match find_last (fun l => str_eqb (first_word l) r) (data_lines raw) with
+  | None => None
+  | Some line =>
+      match split_ws line with
+      | _ :: vs => match get_last c (combine (header_of raw) vs) with
+                   | Some tok => parse_num (existsb has_dot vs) tok
+                   | None => None
+                   end
+      | [] => None
+      end
+  end.
+
+Lemma str_eqb_sym_false a b : str_eqb a b = false -> str_eqb b a = false.
+Proof.
+  intros H. destruct (str_eqb b a) eqn:E; [|reflexivity]. apply str_eqb_eq in E. subst. rewrite str_eqb_refl in H. discriminate.
+Qed.
+Lemma dict_get_dict_set {V} k k' (v : V) d :
+  dict_get k (dict_set k' v d) = if str_eqb k' k then Some v else dict_get k d.
+Proof.
+  induction d as [|[k2 v2] d IH]; cbn [dict_set dict_get].
+  - reflexivity.
+  - destruct (str_eqb k2 k') eqn:E2.
+    + apply str_eqb_eq in E2. subst k'. cbn [dict_get]. destruct (str_eqb k2 k); reflexivity.
+    + cbn [dict_get]. rewrite IH. destruct (str_eqb k2 k) eqn:E3; [|reflexivity].
+      apply str_eqb_eq in E3. subst k. rewrite str_eqb_sym_false by exact E2. reflexivity.
+Qed.
+Lemma dict_get_set_all {V} k (l : list (str * V)) : forall d,
+  dict_get k (set_all l d) = match get_last k l with Some v => Some v | None => dict_get k d end.
+Proof.
+  induction l as [|[k' v'] l IH]; intros d; [reflexivity|].
+  cbn [set_all fold_left fst snd get_last]. change (fold_left _ l ?x) with (set_all l x).
+  rewrite IH. destruct (get_last k l); [reflexivity|].
+  rewrite dict_get_dict_set. destruct (str_eqb k' k); reflexivity.
+Qed.
+Lemma dict_get_of_pairs {V} k (l : list (str * V)) : dict_get k (dict_of_pairs l) = get_last k l.
+Proof.
+  change (dict_of_pairs l) with (set_all l []). rewrite dict_get_set_all. destruct (get_last k l); reflexivity.
+Qed.
+Lemma dict_set_keys {V} k (v : V) d : NoDup (map fst d) -> NoDup (map fst (dict_set k v d)) /\
+  forall x, In x (map fst (dict_set k v d)) <-> x = k \/ In x (map fst d).
+Proof.
+  induction d as [|[k2 v2] d IH]; intros H.
+  - cbn. split; [constructor; [intros []|constructor]|]. intros x. split; [intros [E|[]]; left; congruence|intros [E|[]]; left; congruence].
+  - cbn [dict_set]. cbn [map fst] in H. inversion H as [|? ? Hk Hd]; subst.
+    destruct (str_eqb k2 k) eqn:E.
+    + apply str_eqb_eq in E. subst k2. cbn [map fst]. split; [exact H|].
+      intros x. split; [intros Hx; right; exact Hx|intros [Hx|Hx]; [left; congruence|exact Hx]].
+    + destruct (IH Hd) as [IH1 IH2]. cbn [map fst]. split.
+      * constructor; [|exact IH1]. intros Hin. apply IH2 in Hin. destruct Hin as [Hin|Hin]; [|contradiction].
+        subst k2. rewrite str_eqb_refl in E. discriminate.
+      * intros x. split.
+        -- intros [Hx|Hx]; [right; left; exact Hx|]. apply IH2 in Hx. destruct Hx as [Hx|Hx]; [left; exact Hx|right; right; exact Hx].
+        -- intros [Hx|[Hx|Hx]]; [right; apply IH2; left; exact Hx|left; exact Hx|right; apply IH2; right; exact Hx].
+Qed.
+Lemma set_all_keys {V} (l : list (str * V)) : forall d, NoDup (map fst d) -> NoDup (map fst (set_all l d)) /\
+  forall x, In x (map fst (set_all l d)) <-> In x (map fst l) \/ In x (map fst d).
+Proof.
+  induction l as [|[k v] l IH]; intros d H.
+  - cbn. split; [exact H|]. intros x. split; [intros Hx; right; exact Hx|intros [[]|Hx]; exact Hx].
+  - cbn [set_all fold_left fst snd]. change (fold_left _ l ?x) with (set_all l x).
+    destruct (dict_set_keys k v d H) as [H1 H2]. destruct (IH _ H1) as [I1 I2]. split; [exact I1|].
+    intros x. rewrite I2, H2. cbn [map fst In]. split.
+    + intros [Hx|[Hx|Hx]]; [left; right; exact Hx|left; left; congruence|right; exact Hx].
+    + intros [[Hx|Hx]|Hx]; [right; left; congruence|left; exact Hx|right; right; exact Hx].
+Qed.
+
+Lemma get_last_parse c fl (hs : list str) : forall toks vals, parse_vals fl (firstn (length hs) toks) = Some vals ->
+  match get_last c (combine hs toks) with
+  | Some tok => exists v, parse_num fl tok = Some v /\ get_last c (combine hs vals) = Some v
+  | None => get_last c (combine hs vals) = None
+  end.
+Proof.
+  induction hs as [|h hs IH]; intros toks vals H; [reflexivity|].
+  destruct toks as [|t toks]; cbn [length firstn parse_vals] in H.
+  - inversion H. reflexivity.
+  - destruct (parse_num fl t) as [v0|] eqn:E0; [|discriminate].
+    destruct (parse_vals fl (firstn (length hs) toks)) as [vals'|] eqn:E1; [|discriminate].
+    inversion H; subst. cbn [combine get_last]. specialize (IH toks vals' E1).
+    destruct (get_last c (combine hs toks)) as [tok|].
+    + destruct IH as (v & Hv & Hg). exists v. rewrite Hg. split; [exact Hv|reflexivity].
+    + rewrite IH. destruct (str_eqb h c); [exists v0; split; [exact E0|reflexivity]|reflexivity].
+Qed.
+
+(* one line *)
+Lemma row_of_cell hs line l1 rw c : row_of hs line = Some (l1, rw) ->
+  first_word line = l1 /\
+  dict_get c rw = match split_ws line with
+                  | _ :: vs => match get_last c (combine hs vs) with
+                               | Some tok => parse_num (existsb has_dot vs) tok
+                               | None => None
+                               end
+                  | [] => None
+                  end.
+Proof.
+  intros H. split; [exact (row_of_key hs line (l1, rw) H)|].
+  unfold row_of in H. destruct (split1 line) as [[w rest]|] eqn:S1; [|discriminate].
+  destruct (parse_vals (has_dot rest) (firstn (length hs) (split_ws rest))) as [vals|] eqn:PV; [|discriminate].
+  inversion H; subst. destruct (split1_split_ws _ _ _ S1) as [W _]. rewrite W.
+  rewrite dict_get_of_pairs, has_dot_split_ws.
+  pose proof (get_last_parse c _ hs _ _ PV) as G.
+  destruct (get_last c (combine hs (split_ws rest))) as [tok|].
+  - destruct G as (v & Hv & Hg). rewrite Hg, Hv. reflexivity.
+  - exact G.
+Qed.
+Lemma find_last_In {A} (P : A -> bool) l x : find_last P l = Some x -> In x l.
+Proof.
+  induction l as [|y l IH]; [discriminate|]. cbn [find_last].
+  destruct (find_last P l) as [z|].
+  - intros H. inversion H; subst. right. apply IH. reflexivity.
+  - destruct (P y); [|discriminate]. intros H. inversion H. left. reflexivity.
+Qed.
+
+Lemma rows_of_last hs ls rows r : rows_of hs ls = Some rows ->
+  get_last r rows = match find_last (fun l => str_eqb (first_word l) r) ls with
+                    | Some line => match row_of hs line with Some x => Some (snd x) | None => None end
+                    | None => None
+                    end.
+Proof.
+  revert rows; induction ls as [|l ls IH]; intros rows H; cbn [rows_of] in H.
+  - inversion H. reflexivity.
+  - destruct (row_of hs l) as [[k rw]|] eqn:E; [|discriminate].
+    destruct (rows_of hs ls) as [rows'|] eqn:ER; [|discriminate]. inversion H; subst.
+    cbn [get_last find_last]. rewrite (IH rows' eq_refl).
+    destruct (find_last (fun l0 => str_eqb (first_word l0) r) ls) as [line|] eqn:F.
+    + destruct (rows_of_In _ _ _ _ ER (find_last_In _ _ _ F)) as (x & Hx & _). rewrite Hx. reflexivity.
+    + rewrite (row_of_key hs l (k, rw) E). cbn [fst]. destruct (str_eqb k r); [rewrite E; reflexivity|reflexivity].
+Qed.
+(* the parser on every content: the rows, with all rows convertible *)
+Lemma parse_rows raw m : parse raw = Some m ->
+  match content_lines raw with
+  | [] => m = []
+  | h :: D => exists rows, rows_of (split_ws h) D = Some rows /\ m = set_all rows []
+  end.
+Proof.
+  unfold parse. rewrite parse_lines_filter. fold (content_lines raw).
+  pose proof (content_lines_nonskipped raw) as Hns.
+  destruct (content_lines raw) as [|h D]; cbn [parse_lines].
+  - intros H. inversion H. reflexivity.
+  - cbn [forallb] in Hns. apply andb_prop in Hns. destruct Hns as [Hh HD].
+    destruct (skipped h); [discriminate|]. rewrite (parse_lines_rows _ _ _ HD).
+    destruct (rows_of (split_ws h) D) as [rows|] eqn:E; [|discriminate].
+    intros H. inversion H. exists rows. split; reflexivity.
+Qed.
+
+Theorem parse_general raw m : parse raw = Some m ->
+  (forall r c, cell m r c = cell_spec raw r c) /\
+  NoDup (map fst m) /\
+  (forall r, In r (map fst m) <-> In r (map first_word (data_lines raw))).
+Proof.
+  intros H. pose proof (parse_rows raw m H) as R. unfold cell_spec, header_of, data_lines.
+  destruct (content_lines raw) as [|h D].
+  - subst m. cbn. split; [reflexivity|]. split; [constructor|]. intros r. split; intros [].
+  - destruct R as (rows & E & ->). cbn [tl].
+    destruct (set_all_keys rows [] (NoDup_nil _)) as [K1 K2].
+    split; [|split; [exact K1|]].
+    + intros r c. unfold cell. rewrite dict_get_set_all. cbn [dict_get].
+      rewrite (rows_of_last _ _ _ r E).
+      destruct (find_last (fun l => str_eqb (first_word l) r) D) as [line|] eqn:F; [|reflexivity].
+      pose proof (find_last_In _ _ _ F) as Hin.
+      destruct (rows_of_In _ _ _ _ E Hin) as (x & Hx & _).
+      rewrite Hx. destruct x as [l1 rw]. cbn [snd].
+      exact (proj2 (row_of_cell _ _ _ _ c Hx)).
+    + intros r. rewrite K2, (rows_of_keys _ _ _ E). cbn [map In]. tauto.
+Qed.
+
+(* ================= symmetry check = the statement, for every parser result ================= *)
+Lemma sym_ok_complete (m : matrix) : NoDup (map fst m) ->
+  (forall a b va vb, cell m a b = Some va -> cell m b a = Some vb -> num_val_eqb va vb = true) ->
+  (forall a rw, In (a, rw) m -> NoDup (map fst rw)) ->
+  sym_ok m = true.
+Proof.
+  intros Hnd H Hrows. unfold sym_ok. apply forallb_forall. intros [a rw] Ha. cbn [fst snd].
+  apply forallb_forall. intros [b v] Hb. cbn [fst snd].
+  destruct (cell m b a) as [v'|] eqn:E; [|reflexivity].
+  apply (H a b v v'); [|exact E].
+  assert (G : dict_get a m = Some rw) by (apply dict_get_nodup_In; assumption).
+  unfold cell. rewrite G.
+  apply dict_get_nodup_In; [exact (Hrows a rw Ha)|exact Hb].
+Qed.
+Lemma set_all_rows_nodup {V} (P : list (str * V) -> Prop) (l : list (str * list (str * V))) :
+  (forall k rw, In (k, rw) l -> P rw) -> forall d, (forall k rw, In (k, rw) d -> P rw) ->
+  forall k rw, In (k, rw) (set_all l d) -> P rw.
+Proof.
+  induction l as [|[k0 rw0] l IH]; intros Hl d Hd k rw Hin; [exact (Hd k rw Hin)|].
+  cbn [set_all fold_left fst snd] in Hin. change (fold_left _ l ?x) with (set_all l x) in Hin.
+  apply (IH (fun k rw H => Hl k rw (or_intror H)) (dict_set k0 rw0 d)) with (k := k); [|exact Hin].
+  intros k1 rw1 H1. clear - H1 Hd Hl.
+  induction d as [|[k2 v2] d IHd]; cbn [dict_set] in H1.
+  - destruct H1 as [H1|[]]. inversion H1; subst. eapply Hl. left. reflexivity.
+  - destruct (str_eqb k2 k0).
+    + destruct H1 as [H1|H1]; [inversion H1; subst; eapply Hl; left; reflexivity|].
+      apply (Hd k1 rw1). right. exact H1.
+    + destruct H1 as [H1|H1]; [apply (Hd k1 rw1); left; exact H1|].
+      apply IHd; [|exact H1]. intros k rw H. apply (Hd k rw). right. exact H.
+Qed.
+Lemma dict_of_pairs_keys_nodup {V} (l : list (str * V)) : NoDup (map fst (dict_of_pairs l)).
+Proof. change (dict_of_pairs l) with (set_all l []). apply (set_all_keys l [] (NoDup_nil _)). Qed.
+Lemma rows_of_rows_nodup hs ls rows : rows_of hs ls = Some rows -> forall k rw, In (k, rw) rows -> NoDup (map fst rw).
+Proof.
+  revert rows; induction ls as [|l ls IH]; intros rows H k rw Hin; cbn [rows_of] in H.
+  - inversion H; subst. destruct Hin.
+  - destruct (row_of hs l) as [[k0 rw0]|] eqn:E; [|discriminate].
+    destruct (rows_of hs ls) as [rows'|]; [|discriminate]. inversion H; subst.
+    destruct Hin as [Hin|Hin]; [|exact (IH rows' eq_refl k rw Hin)].
+    inversion Hin; subst. unfold row_of in E. destruct (split1 l) as [[w rest]|]; [|discriminate].
+    destruct (parse_vals (has_dot rest) (firstn (length hs) (split_ws rest))); [|discriminate].
+    inversion E. apply dict_of_pairs_keys_nodup.
+Qed.
+Theorem symmetric_iff raw m : parse raw = Some m ->
+  (sym_ok m = true <->
+   forall a b va vb, cell m a b = Some va -> cell m b a = Some vb -> num_val_eqb va vb = true).
+Proof.
+  intros H. split; [apply sym_ok_spec|]. intros S.
+  destruct (parse_general raw m H) as (_ & Hnd & _).
+  apply sym_ok_complete; [exact Hnd|exact S|].
+  pose proof (parse_rows raw m H) as R. destruct (content_lines raw) as [|h D].
+  - subst m. intros a rw [].
+  - destruct R as (rows & E & ->). intros a rw Hin.
+    apply (set_all_rows_nodup (fun rw => NoDup (map fst rw)) rows (rows_of_rows_nodup _ _ _ E) []) with (k := a); [|exact Hin].
+    intros k rw0 [].
+Qed.
+(* "equal" is equality of the denoted rationals m/10^k *)
+Lemma pow10_pos k : (0 < pow10 k)%Z.
+Proof. unfold pow10. apply Z.pow_pos_nonneg; lia. Qed.
+Definition num_q (v : num) : Z * Z := match v with NInt z => (z, 1%Z) | NDec m k => (m, pow10 k) end.
+Lemma num_val_eqb_rational a b :
+  num_val_eqb a b = true <-> (fst (num_q a) * snd (num_q b) = fst (num_q b) * snd (num_q a))%Z.
+Proof.
+  destruct a as [x|m k], b as [y|m' k']; cbn [num_val_eqb num_q fst snd]; rewrite Z.eqb_eq; lia.
+Qed.
+
+(* ================= exactly when submat(file) raises ValueError ================= *)
+Definition is_some {A} (o : option A) : bool := match o with Some _ => true | None => false end.
+(* a data line is readable: at least two words, and each of the first min(#letters, #values) value words is a number
+   for the reader the row selects (words beyond the header are never converted) *)
+Definition line_parses (hs : list str) (line : str) : bool :=
+  match split_ws line with
+  | _ :: ((_ :: _) as vs) => forallb (fun t => is_some (parse_num (existsb has_dot vs) t)) (firstn (length hs) vs)
+  | _ => false
+  end.
+Lemma parse_vals_some fl toks : is_some (parse_vals fl toks) = forallb (fun t => is_some (parse_num fl t)) toks.
+Proof.
+  induction toks as [|t toks IH]; [reflexivity|].
+  cbn [parse_vals forallb]. destruct (parse_num fl t); cbn [is_some andb]; [|reflexivity].
+  rewrite <- IH. destruct (parse_vals fl toks); reflexivity.
+Qed.
+Lemma row_of_some hs line : is_some (row_of hs line) = line_parses hs line.
+Proof.
+  unfold row_of, line_parses. destruct (split1 line) as [[l1 rest]|] eqn:S1.
+  - destruct (split1_split_ws _ _ _ S1) as [W Hne]. rewrite W.
+    destruct (split_ws rest) as [|v vs] eqn:Wr; [congruence|].
+    rewrite <- Wr, has_dot_split_ws, <- parse_vals_some.
+    destruct (parse_vals (has_dot rest) (firstn (length hs) (split_ws rest))); reflexivity.
+  - destruct (split_ws line) as [|a [|b r]] eqn:W; try reflexivity.
+    destruct (split1_some line a b r W) as (rest & S2 & _). congruence.
+Qed.
+Lemma rows_of_some hs ls : is_some (rows_of hs ls) = forallb (line_parses hs) ls.
+Proof.
+  induction ls as [|l ls IH]; [reflexivity|].
+  cbn [rows_of forallb]. rewrite <- row_of_some, <- IH.
+  destruct (row_of hs l); cbn [is_some andb]; [|reflexivity]. destruct (rows_of hs ls); reflexivity.
+Qed.
+Theorem parse_succeeds_iff raw : is_some (parse raw) = forallb (line_parses (header_of raw)) (data_lines raw).
+Proof.
+  unfold parse, header_of, data_lines. rewrite parse_lines_filter. fold (content_lines raw).
+  pose proof (content_lines_nonskipped raw) as Hns.
+  destruct (content_lines raw) as [|h D]; cbn [parse_lines tl forallb]; [reflexivity|].
+  cbn [forallb] in Hns. apply andb_prop in Hns. destruct Hns as [Hh HD].
+  destruct (skipped h); [discriminate|]. rewrite (parse_lines_rows _ _ _ HD), <- rows_of_some.
+  destruct (rows_of (split_ws h) D); reflexivity.
+Qed.
+
+(* ================= int or float: decided per ROW, not per cell ================= *)
+Lemma as_dec_not_int v : is_int_num (as_dec v) = false.
+Proof. destruct v; reflexivity. Qed.
+Lemma row_vals_kind vals v : In v (row_vals vals) -> is_int_num v = forallb is_int_num vals.
+Proof.
+  unfold row_vals. destruct (forallb is_int_num vals) eqn:E; intros H.
+  - rewrite forallb_forall in E. apply E. exact H.
+  - apply in_map_iff in H. destruct H as (x & <- & _). apply as_dec_not_int.
+Qed.
+Lemma row_vals_length vals : length (row_vals vals) = length vals.
+Proof. unfold row_vals. destruct (forallb is_int_num vals); [reflexivity|apply map_length]. Qed.
+(* the value is kept: float("17") denotes 17 *)
+Lemma as_dec_value v : num_val_eqb (as_dec v) v = true.
+Proof.
+  destruct v as [z|m k]; cbn [as_dec num_val_eqb].
+  - unfold pow10. cbn. apply Z.eqb_eq. lia.
+  - apply Z.eqb_refl.
+Qed.
+Lemma row_vals_nth vals j v : nth_error vals j = Some v ->
+  exists v', nth_error (row_vals vals) j = Some v' /\ num_val_eqb v' v = true /\
+             is_int_num v' = forallb is_int_num vals.
+Proof.
+  intros H. unfold row_vals. destruct (forallb is_int_num vals) eqn:E.
+  - exists v. split; [exact H|]. split.
+    + destruct v as [z|m k]; cbn; [apply Z.eqb_refl|apply Z.eqb_refl].
+    + rewrite forallb_forall in E. apply E. apply (nth_error_In _ _ H).
+  - exists (as_dec v). split; [rewrite nth_error_map, H; reflexivity|]. split; [apply as_dec_value|apply as_dec_not_int].
+Qed.
+(* "int iff the cell's own text is an integer literal" is false for mixed rows *)
+Lemma per_cell_reading_refuted : exists vals v, In v vals /\ is_int_num v = true /\
+  forall v', In v' (row_vals vals) -> is_int_num v' = false.
+Proof.
+  exists [NInt 0; NDec 15 1], (NInt 0). split; [left; reflexivity|]. split; [reflexivity|].
+  intros v' H. rewrite (row_vals_kind _ _ H). reflexivity.
+Qed.
+
+(* ================= the parser as a function of the WORDS of the non-skipped lines, for every text ================= *)
+Definition wrow_of (hs : list str) (ws : list str) : option (str * row) :=
+  match ws with
+  | r :: ((_ :: _) as vs) =>
+      match parse_vals (existsb has_dot vs) (firstn (length hs) vs) with
+      | Some vals => Some (r, dict_of_pairs (combine hs vals))
+      | None => None
+      end
+  | _ => None
+  end.
+Fixpoint wrows_of (hs : list str) (wls : list (list str)) : option (list (str * row)) :=
+  match wls with
+  | [] => Some []
+  | ws :: r => match wrow_of hs ws with
+               | None => None
+               | Some x => match wrows_of hs r with None => None | Some xs => Some (x :: xs) end
+               end
+  end.
+(* header words, then rows: a later row with the same letter replaces the earlier one at its place (set_all = dict_set in order) *)
+Definition table_of_words (wls : list (list str)) : option matrix :=
+  match wls with
+  | [] => Some []
+  | hs :: rows => match wrows_of hs rows with Some rs => Some (set_all rs []) | None => None end
+  end.
+Lemma row_of_words hs line : row_of hs line = wrow_of hs (split_ws line).
+Proof.
+  unfold row_of, wrow_of. destruct (split1 line) as [[l1 rest]|] eqn:S1.
+  - destruct (split1_split_ws _ _ _ S1) as [W Hne]. rewrite W.
+    destruct (split_ws rest) as [|v vs] eqn:Wr; [congruence|].
+    rewrite <- Wr, has_dot_split_ws. reflexivity.
+  - destruct (split_ws line) as [|a [|b r]] eqn:W; try reflexivity.
+    destruct (split1_some line a b r W) as (rest & S2 & _). congruence.
+Qed.
+Lemma rows_of_words hs ls : rows_of hs ls = wrows_of hs (map split_ws ls).
+Proof.
+  induction ls as [|l ls IH]; [reflexivity|]. cbn [rows_of map wrows_of]. rewrite row_of_words, IH. reflexivity.
+Qed.
+Theorem parse_words raw : parse raw = table_of_words (map split_ws (content_lines raw)).
+Proof.
+  unfold parse. rewrite parse_lines_filter. fold (content_lines raw).
+  pose proof (content_lines_nonskipped raw) as Hns.
+  destruct (content_lines raw) as [|h D]; cbn [parse_lines map table_of_words]; [reflexivity|].
+  cbn [forallb] in Hns. apply andb_prop in Hns. destruct Hns as [Hh HD].
+  destruct (skipped h); [discriminate|]. rewrite (parse_lines_rows _ _ _ HD), rows_of_words. reflexivity.
+Qed.
+(* files of the layout grammar: the text layer disappears *)
+Theorem parse_render_words e final f : afile_ok f = true ->
+  parse (render_with e final f) = table_of_words (word_lines f).
+Proof. intros H. rewrite parse_words, (words_of_rendered_with e final f H). reflexivity. Qed.
+
+(* ================= the cell grammar: underscores ================= *)
+Definition has_us (s : str) : bool := existsb (fun c => byte_eqb c "_"%byte) s.
+Lemma strip_us_id s : forall prev, has_us s = false -> byte_eqb prev "_"%byte = false -> strip_us s prev = Some s.
+Proof.
+  induction s as [|c s IH]; intros prev H Hp; cbn [strip_us].
+  - rewrite Hp. reflexivity.
+  - unfold has_us in H. cbn [existsb] in H. apply orb_false_iff in H. destruct H as [Hc Hs].
+    rewrite Hc, Hp. cbn [andb]. rewrite (IH c Hs Hc). reflexivity.
+Qed.
+(* words without underscore: int() is the plain [+-]?D+ reader *)
+Lemma int_plain tok : has_us tok = false -> py_int tok = Z_of_dec tok.
+Proof.
+  intros H. unfold py_int. destruct (Z_of_dec tok) eqn:E; [reflexivity|].
+  rewrite (strip_us_id tok x00 H eq_refl). exact E.
+Qed.
+Lemma float_plain tok : has_us tok = false ->
+  py_float tok = match dec_of_token tok with
+                 | Some (m, k) => Some (NDec m k)
+                 | None => match sfloat tok with Some (m, k) => Some (NDec m k) | None => None end
+                 end.
+Proof. intros H. unfold py_float. rewrite (strip_us_id tok x00 H eq_refl). reflexivity. Qed.
+
+Lemma digit_not_us c : is_digit c = true -> byte_eqb c "_"%byte = false.
+Proof. destruct c; cbn; intros H; try reflexivity; discriminate. Qed.
+Lemma digits_no_us ds : forallb is_digit ds = true -> has_us ds = false.
+Proof.
+  induction ds as [|c ds IH]; intros H; [reflexivity|].
+  cbn [forallb] in H. apply andb_prop in H. destruct H as [H1 H2].
+  unfold has_us. cbn [existsb]. rewrite (digit_not_us c H1). exact (IH H2).
+Qed.
+(* a run of digits is copied, whatever stood before it *)
+Lemma strip_us_digits ds : forallb is_digit ds = true -> ds <> [] -> forall r prev,
+  strip_us (ds ++ r) prev = match strip_us r (last ds prev) with Some t => Some (ds ++ t) | None => None end.
+Proof.
+  induction ds as [|c ds IH]; intros H Hne r prev; [congruence|].
+  cbn [forallb] in H. apply andb_prop in H. destruct H as [H1 H2].
+  cbn [List.app strip_us]. rewrite (digit_not_us c H1), H1. cbn [negb]. rewrite andb_false_r.
+  destruct ds as [|d ds'].
+  - cbn [List.app last]. destruct (strip_us r c); reflexivity.
+  - rewrite (IH H2 ltac:(discriminate) r c).
+    change (last (c :: d :: ds') prev) with (last (d :: ds') prev).
+    replace (last (d :: ds') c) with (last (d :: ds') prev); [destruct (strip_us r (last (d :: ds') prev)); reflexivity|].
+    clear. revert d. induction ds' as [|e ds' IH]; intros d; [reflexivity|]. cbn [last]. apply (IH e).
+Qed.
+Lemma last_digit ds prev : forallb is_digit ds = true -> ds <> [] -> is_digit (last ds prev) = true.
+Proof.
+  induction ds as [|c ds IH]; intros H Hne; [congruence|].
+  cbn [forallb] in H. apply andb_prop in H. destruct H as [H1 H2].
+  destruct ds as [|d ds']; [exact H1|]. change (last (c :: d :: ds') prev) with (last (d :: ds') prev).
+  apply IH; [exact H2|discriminate].
+Qed.
+Lemma digits_acc_stop a c b : forallb is_digit a = true -> digit_val c = None -> forall acc, digits_acc (a ++ c :: b) acc = None.
+Proof.
+  induction a as [|d a IH]; intros H Hc acc.
+  - cbn [List.app digits_acc]. rewrite Hc. reflexivity.
+  - cbn [forallb] in H. apply andb_prop in H. destruct H as [H1 H2].
+    cbn [List.app digits_acc]. unfold is_digit in H1. destruct (digit_val d); [|discriminate]. apply (IH H2 Hc).
+Qed.
+(* int("1_000") = int("1000"): one underscore between two runs of digits *)
+Theorem int_underscore a b : all_digits a = true -> all_digits b = true ->
+  py_int (a ++ "_"%byte :: b) = Z_of_dec (a ++ b) /\ py_int (a ++ b) = Z_of_dec (a ++ b).
+Proof.
+  unfold all_digits. intros Ha Hb.
+  destruct a as [|a0 a']; [discriminate|]. destruct b as [|b0 b']; [discriminate|].
+  set (a := a0 :: a') in *. set (b := b0 :: b') in *.
+  assert (Hna : a <> []) by discriminate. assert (Hnb : b <> []) by discriminate.
+  split.
+  - unfold py_int.
+    assert (E : Z_of_dec (a ++ "_"%byte :: b) = None).
+    { pose proof Ha as Ha'. unfold a in Ha'. cbn [forallb] in Ha'. apply andb_prop in Ha'. destruct Ha' as [H0 _].
+      unfold a at 1. cbn [List.app]. rewrite (digit_not_sign a0 _ H0). unfold nat_of_dec.
+      change (a0 :: a' ++ "_"%byte :: b) with (a ++ "_"%byte :: b).
+      apply (digits_acc_stop a "_"%byte b Ha eq_refl). }
+    rewrite E. rewrite (strip_us_digits a Ha Hna).
+    cbn [strip_us]. change (byte_eqb "_" "_") with true. cbv iota.
+    rewrite (last_digit a x00 Ha Hna).
+    rewrite <- (app_nil_r b) at 1. rewrite (strip_us_digits b Hb Hnb [] "_"%byte).
+    cbn [strip_us]. rewrite (digit_not_us _ (last_digit b "_"%byte Hb Hnb)). rewrite app_nil_r. reflexivity.
+  - apply int_plain. apply digits_no_us. rewrite forallb_app, Ha, Hb. reflexivity.
+Qed.
+
+(* ================= the cell grammar: exponents ================= *)
+Lemma has_us_app a b : has_us (a ++ b) = has_us a || has_us b.
+Proof. unfold has_us. apply existsb_app. Qed.
+Lemma dec_of_Z_no_us z : has_us (dec_of_Z z) = false.
+Proof.
+  destruct (Z.leb_spec 0 z) as [H|H].
+  - apply digits_no_us. exact (proj1 (digits_nonneg z H)).
+  - destruct z as [|p|p]; try lia. unfold dec_of_Z. cbn [Z.to_int].
+    unfold has_us. cbn [existsb]. apply (digits_no_us _ (uint_bytes_digits _)).
+Qed.
+Lemma span_digits_stop fp c r : forallb is_digit fp = true -> is_digit c = false ->
+  span_digits (fp ++ c :: r) = (fp, c :: r).
+Proof.
+  induction fp as [|d fp IH]; intros H Hc.
+  - cbn [List.app span_digits]. rewrite Hc. reflexivity.
+  - cbn [forallb] in H. apply andb_prop in H. destruct H as [H1 H2].
+    cbn [List.app span_digits]. rewrite H1, (IH H2 Hc). reflexivity.
+Qed.
+Definition small_exps : list Z := map (fun n => (Z.of_nat n - 999)%Z) (seq 0 1999).
+Lemma exponent_small_all : forallb (fun ex => match exponent (dec_of_Z ex) with Some e => Z.eqb e ex | None => false end) small_exps = true.
+Proof. vm_compute. reflexivity. Qed.
+Lemma exponent_small ex : (-1000 < ex < 1000)%Z -> exponent (dec_of_Z ex) = Some ex.
+Proof.
+  intros H. pose proof exponent_small_all as A. rewrite forallb_forall in A.
+  assert (Hin : In ex small_exps).
+  { unfold small_exps. apply in_map_iff. exists (Z.to_nat (ex + 999)). split; [lia|]. apply in_seq. lia. }
+  specialize (A ex Hin). destruct (exponent (dec_of_Z ex)) as [e|]; [|discriminate].
+  apply Z.eqb_eq in A. congruence.
+Qed.
+Lemma ufloat_canonical ds k EX z e : forallb is_digit ds = true -> (k < length ds)%nat ->
+  digits_acc ds 0%Z = Some z -> exponent EX = Some e ->
+  ufloat (firstn (length ds - k) ds ++ "."%byte :: skipn (length ds - k) ds ++ "e"%byte :: EX) = Some (scale z k e).
+Proof.
+  intros Hd Hk Hz He. unfold ufloat.
+  rewrite (span_digits_dot _ _ (forallb_firstn _ _ _ Hd)). rewrite byte_eqb_refl.
+  rewrite (span_digits_stop _ "e"%byte EX (forallb_skipn _ _ _ Hd) eq_refl).
+  rewrite firstn_skipn. destruct ds as [|d ds']; [cbn in Hk; lia|]. rewrite Hz.
+  change (is_e "e") with true. cbv iota. rewrite He. rewrite skipn_length. f_equal. f_equal. lia.
+Qed.
+Lemma udec_exp_fails ds k EX : forallb is_digit ds = true ->
+  udec (firstn (length ds - k) ds ++ "."%byte :: skipn (length ds - k) ds ++ "e"%byte :: EX) = None.
+Proof.
+  intros Hd. unfold udec. rewrite (span_digits_dot _ _ (forallb_firstn _ _ _ Hd)). rewrite byte_eqb_refl.
+  rewrite forallb_app. cbn [forallb]. change (is_digit "e") with false. rewrite andb_false_r. reflexivity.
+Qed.
+Lemma scale_opp z k e : scale (- z) k e = (- fst (scale z k e), snd (scale z k e))%Z.
+Proof. unfold scale. destruct (Z.leb (Z.of_nat k) e); cbn [fst snd]; [f_equal; lia|reflexivity]. Qed.
+(* float("<m/10^k>e<ex>") = m * 10^ex / 10^k, as a decimal again *)
+Theorem float_exponent m k ex : (-1000 < ex < 1000)%Z ->
+  py_float (render_dec m k ++ "e"%byte :: dec_of_Z ex) = Some (NDec (fst (scale m k ex)) (snd (scale m k ex))).
+Proof.
+  intros Hex. pose proof (exponent_small ex Hex) as He.
+  unfold render_dec. destruct (render_dec_digits m k) as (Hd & Hk & E). cbn zeta in *.
+  set (ds := zeros (S k - length (dec_of_Z (Z.abs m))) ++ dec_of_Z (Z.abs m)) in *.
+  pose proof (ufloat_canonical ds k (dec_of_Z ex) _ _ Hd Hk E He) as U.
+  pose proof (udec_exp_fails ds k (dec_of_Z ex) Hd) as F.
+  assert (NU : has_us (firstn (length ds - k) ds ++ "."%byte :: skipn (length ds - k) ds ++ "e"%byte :: dec_of_Z ex) = false).
+  { rewrite has_us_app, (digits_no_us _ (forallb_firstn _ _ _ Hd)). unfold has_us at 1. cbn [existsb orb].
+    change (byte_eqb "." "_") with false. cbn [orb]. fold (has_us (skipn (length ds - k) ds ++ "e"%byte :: dec_of_Z ex)).
+    rewrite has_us_app, (digits_no_us _ (forallb_skipn _ _ _ Hd)). unfold has_us at 1. cbn [existsb orb].
+    change (byte_eqb "e" "_") with false. cbn [orb]. apply dec_of_Z_no_us. }
+  destruct (Z.ltb_spec m 0) as [Hm|Hm].
+  - cbn [List.app]. rewrite <- !app_assoc. cbn [List.app].
+    rewrite float_plain by (unfold has_us; cbn [existsb]; change (byte_eqb "-" "_") with false; cbn [orb]; exact NU).
+    cbn [dec_of_token sfloat]. rewrite F, U.
+    assert (S : scale m k ex = (- fst (scale (Z.abs m) k ex), snd (scale (Z.abs m) k ex))%Z)
+      by (rewrite <- scale_opp; f_equal; lia).
+    rewrite S. cbn [fst snd]. destruct (scale (Z.abs m) k ex); reflexivity.
+  - cbn [List.app]. rewrite <- !app_assoc. cbn [List.app].
+    rewrite float_plain by exact NU.
+    assert (Hn : (0 < length ds - k)%nat) by lia.
+    destruct ds as [|d ds'] eqn:Eds; [cbn in Hk; lia|].
+    destruct (length (d :: ds') - k)%nat as [|n] eqn:En; [lia|].
+    cbn [firstn List.app] in *. cbn [forallb] in Hd. apply andb_prop in Hd. destruct Hd as [Hd1 _].
+    assert (G1 : forall r, dec_of_token (d :: r) = udec (d :: r)) by (intros r; destruct d; cbn in Hd1; try discriminate; reflexivity).
+    assert (G2 : forall r, sfloat (d :: r) = ufloat (d :: r)) by (intros r; destruct d; cbn in Hd1; try discriminate; reflexivity).
+    rewrite G1, G2, F, U. replace (Z.abs m) with m by lia. destruct (scale m k ex); reflexivity.
+Qed.
+(* what scale denotes *)
+Lemma scale_value m k e : let (m', k') := scale m k e in
+  if Z.leb 0 e then (m' * pow10 k = m * Z.pow 10 e * pow10 k')%Z else (m' = m /\ Z.of_nat k' = Z.of_nat k - e)%Z.
+Proof.
+  unfold scale, pow10. destruct (Z.leb_spec (Z.of_nat k) e) as [H|H].
+  - destruct (Z.leb_spec 0 e) as [H0|H0]; [|lia].
+    replace e with ((e - Z.of_nat k) + Z.of_nat k)%Z at 2 by lia.
+    rewrite Z.pow_add_r by lia. cbn [Z.of_nat]. rewrite Z.pow_0_r. lia.
+  - destruct (Z.leb_spec 0 e) as [H0|H0].
+    + rewrite Z2Nat.id by lia. rewrite <- Z.mul_assoc, <- Z.pow_add_r by lia. f_equal. f_equal. lia.
+    + split; [reflexivity|]. rewrite Z2Nat.id by lia. reflexivity.
+Qed.
+
+(* ================= the listing of the FileNotFoundError text ================= *)
+Lemma listing_exact : split_cs available [] = submat_names.
+Proof. vm_compute. reflexivity. Qed.
+Lemma witness_cell_grammar :
+  py_int (bs "+00_7"%bs) = Some 7%Z /\ py_int (bs "1__0"%bs) = None /\ py_int (bs "1e5"%bs) = None /\
+  py_float (bs "-1_0.5E+0_2"%bs) = Some (NDec (-1050) 0) /\ py_float (bs ".5e-3"%bs) = Some (NDec 5 4) /\
+  py_float (bs "1_.5"%bs) = None /\ py_float (bs "1e"%bs) = None /\ py_float (bs "."%bs) = None /\
+  line_parses [bs "A"%bs] (bs "r 1e5 x"%bs) = false /\ line_parses [bs "A"%bs] (bs "r 1.e5 x"%bs) = true.
+Proof. vm_compute. repeat split; reflexivity. Qed.
